@@ -181,6 +181,9 @@ def stub_ninja(d):
 
 def setup(repo, src, build, seed, reverse_env, extra=()):
     env = dict(os.environ, PYTHONHASHSEED=str(seed), NINJA=stub_ninja(os.path.dirname(src)))
+    # several environment variables that feed ONE option (c_args takes CFLAGS and CPPFLAGS, c_link_args takes LDFLAGS and CFLAGS): the
+    # order of the environment must not show in the result
+    env.update(CFLAGS='-DFROM_CFLAGS=1', CPPFLAGS='-DFROM_CPPFLAGS=2', LDFLAGS='-Wl,--as-needed', CXXFLAGS='-DFROM_CXXFLAGS=3')
     if reverse_env:
         env = dict(reversed(list(env.items())))
     r = subprocess.run([sys.executable, os.path.join(repo, 'meson.py'), 'setup', *extra, build, src], capture_output=True, text=True, env=env)
@@ -249,7 +252,7 @@ def run(REG, tier, seed, jobs):
              'bound': f'{len(HISTORIES)} histories of one C project with a pkg-config dependency, a library, a configure_file: ' + ', '.join(HISTORIES) + '; build.ninja, meson-info/intro-*.json, generated files compared byte for byte (cmd_line.txt excluded: it records the history by design)',
              'evaluations': hev, 'distinct_nontrivial': hnt, 'rule': 'every history', 'exhaustive': False, 'failures': hfails}
     return {'parts': [hpart, {'name': 'C06/bounded/whole-configure-runs-byte-identical', 'function': 'meson setup with the ninja back end and a stub ninja (fresh interpreters)',
-                       'bound': f'{len(names)} generated projects (install data and subdirs with excludes; configuration data and configure_file; custom / run / alias targets with depends and env, tests depending on targets; tests, benchmarks and test setups with env; options, subproject, dependency variables) x 6 PYTHONHASHSEED values x environment in two orders, then a reconfigure with nothing changed',
+                       'bound': f'{len(names)} generated projects (install data and subdirs with excludes; configuration data and configure_file; custom / run / alias targets with depends and env, tests depending on targets; tests, benchmarks and test setups with env; options, subproject, dependency variables) x 6 PYTHONHASHSEED values x environment in two orders (CFLAGS / CPPFLAGS / LDFLAGS / CXXFLAGS set: several variables feeding one option), then a reconfigure with nothing changed',
                        'evaluations': ev, 'distinct_nontrivial': nt, 'rule': 'every setup run', 'exhaustive': False, 'failures': fails}]}
 
 
